@@ -34,12 +34,15 @@ decided with the Metropolis-Hastings ratio from there; the proposal OBJECT of th
 None / missing x centre of the increment law): refused, or decided with the ratio of the mechanism it really is; the data LAYOUT
 of points and scales (lists, integer arrays, float32, 0-d, (n,1), in-place edit of the array handed over) with the lattice
 embedded as real = lattice / 2 so that accepted states are not integral.
+Chains started outside the support, boundary uniforms (specs/MHOutside.tla EXTENDS MHKernel): the initial point has log-density
+-inf; a finite proposal is accepted whatever the uniform (Metropolis-Hastings ratio +inf), a NaN / -inf proposal never (from a
+finite and from a -inf state; the chain stays put and reports no acceptance); decisions with the uniform exactly 0.
 Code -> spec: real runs of the Metropolis-type samplers under the recorder log the boolean facets cache_ok /
 finite_ok / moved / acc of every transition; TLC validates them against TraceMHKernel.tla.
 """
 META = {
     "claimed": True,
-    "engine": "MHKernel.tla + CWSweep.tla + MHReconf.tla",
+    "engine": "MHKernel.tla + CWSweep.tla + MHReconf.tla + MHOutside.tla",
     "text": ("TLC checks on every reachable state of the bounded lattice model (d=1: 5 points, d=2: 3x3; quadratic, asymmetric "
              "and NaN/-inf-holed target tables; RW, CW, PCN, MALA x both interfaces; scalar, per-component and re-tuned scales; "
              "state reload) that the log-ratio computed from the caches is the Metropolis-Hastings log-ratio of the proposal "
@@ -76,6 +79,10 @@ META = {
              "then proposal / decision / state of the first transition; proposal objects given to the constructor or assigned: "
              "refused, or replayed with a uniform 1e-6 below / above the threshold of the mode the specification emitted; layouts "
              "(python lists, integer arrays, float32, 0-d, (n,1), in-place edit) with the lattice embedded as real = lattice/2; "
+             "MHOutside.tla (EXTENDS MHKernel) starts the chains at a point of log-density -inf and gives Decide the kind of uniform "
+             "(generic | exactly 0): RatioIsMHO (ratio +inf from zero density), NeverAcceptsNonFinite, MovesOnlyToFinite, StaysInside, "
+             "EscapesWithProbabilityOne (deviation InfGuardDropped refuted), every behaviour replayed on all kernels of both "
+             "interfaces (step / single_update and the public loops); the uniforms scripted for a non-finite proposal include 0; "
              "recorded real runs are validated by TLC against TraceMHKernel."),
     "note": ("Targets are tables on a finite lattice (the ratio identities do not depend on the table values); a computed ratio "
              "must deviate by more than 1e-6 relative to flip a scripted decision. Legacy CWMH is driven with a copy of x "
@@ -93,8 +100,10 @@ META = {
              "between an assignment and the re-initialisation (undocumented); the symmetry of the conditional proposals of CWMH is "
              "not checked by either interface and not asserted; a flag declared by the caller of a user-defined proposal is taken as "
              "truthful; exceptions under a non-default layout and mismatches under a layout no docstring describes are "
-             "observations; what a sampler does with a proposal object whose assignment raised is an observation."),
-    "technique": "TLA+ specs (MHKernel, CWSweep, MHReconf) model-checked with TLC; TLC-generated behaviours replayed into the samplers with scripted randomness; recorded traces validated by TLC",
+             "observations; what a sampler does with a proposal object whose assignment raised is an observation. A proposal "
+             "with log-density +inf (acceptance probability 1 by the formula, not named by the property) is observed only; "
+             "chains are not started at a NaN point."),
+    "technique": "TLA+ specs (MHKernel, CWSweep, MHReconf, MHOutside) model-checked with TLC; TLC-generated behaviours replayed into the samplers with scripted randomness; recorded traces validated by TLC",
 }
 
 import concurrent.futures, hashlib, json, os, random, time, warnings
@@ -1419,6 +1428,8 @@ def run(ctx):
                         "exception under a layout other than float64 arrays / python floats is an observation, a mismatch under a "
                         "layout no docstring describes (0-d, (n,1), tuples, list scales, list points of the stateless interface and "
                         "of CWMH) too",
+                        "outside starts: the initial point is a lattice point of log-density -inf with a finite drift; the log-ratio "
+                        "+inf is replayed as threshold 1 (uniform 1 - 1e-6) and with the uniform exactly 0",
                         "proposal objects: the increments of the catalogue are Gaussian N(mu, I) with mu in {0, 1}; a flag declared "
                         "by the caller of a user-defined distribution is truthful",
                         "aborted transitions: the failure is an exception raised by the target's log-density / drift / forward map "
